@@ -526,18 +526,25 @@ Proof.
   cbn [flat_map concat]. rewrite !app_nil_r. reflexivity.
 Qed.
 
-(* C09, general form *)
-Theorem encode_spec_gen : forall o data, opts_ok o -> bytes data ->
-  (lz4stream_DescriptorFlags_Size (fo_flags o) = true -> fo_csize o = len data) ->
-  (fo_level o = lz4block_Fast \/ 0 < fo_level o <= 131072) -> len data < 2 ^ 64 ->
-  frame_spec Decoded true (frame_encode o data) = Some (data, len (frame_encode o data)).
+Lemma close_writes_modern o data : fo_legacy o = false ->
+  concat (close_writes o data) = [0; 0; 0; 0] ++ cc_tail o data.
+Proof. intros Hleg. unfold close_writes, cc_tail. rewrite Hleg. cbn [concat]. rewrite app_nil_r. reflexivity. Qed.
+
+(* C09 for an ARBITRARY list of blocks (each non-empty, bytes, at most the block size): the header,
+   the writes of the blocks and the closing write form a frame the strict specification accepts,
+   with the concatenation of the blocks as content *)
+Theorem encode_spec_blocks : forall o blocks, opts_ok o -> Forall (good_chunk (bsz_of o)) blocks ->
+  (lz4stream_DescriptorFlags_Size (fo_flags o) = true -> fo_csize o = len (concat blocks)) ->
+  (fo_level o = lz4block_Fast \/ 0 < fo_level o <= 131072) -> len (concat blocks) < 2 ^ 64 ->
+  let frame := header_bytes o ++ concat (flat_map (block_writes o) blocks)
+               ++ concat (close_writes o (concat blocks)) in
+  frame_spec Decoded true frame = Some (concat blocks, len frame).
 Proof.
-  intros o data Hok Hby Hsize Hlev Hlen.
+  intros o cs Hok Hgood Hsize Hlev Hlen. cbv zeta.
   pose proof (bsz_of_range o Hok) as Hbsz.
   pose proof Hok as (Hleg & Hf & Hres & Hval & Hcs).
-  destruct (chunks_spec (bsz_of o) ltac:(lia) (S (length data)) data ltac:(lia) Hby) as [Hcat Hgood].
-  rewrite (frame_encode_shape o data Hleg).
-  set (cs := chunks (S (length data)) (bsz_of o) data) in *.
+  set (data := concat cs) in *.
+  rewrite (close_writes_modern o data Hleg).
   set (rest := concat (flat_map (block_writes o) cs) ++ [0; 0; 0; 0] ++ cc_tail o data).
   destruct (header_parse o rest Hok) as (hd & Hshape & Hparse).
   rewrite Hshape. unfold frame_spec. rewrite frame_spec_fuel_S.
@@ -549,7 +556,7 @@ Proof.
   { pose proof (blocks_length o Hleg cs) as Hl. subst rest. rewrite app_length. lia. }
   subst rest.
   rewrite (blocks_seq true o Hleg ltac:(lia) Hlev cs _ (cc_tail o data) [] Hgood Hfuel).
-  cbn [app]. rewrite Hcat.
+  cbn [app]. fold data.
   assert (Hcc : (if fd_cc (desc_of_opts o) then
                    match u32le (cc_tail o data) with
                    | None => None
@@ -568,6 +575,21 @@ Proof.
     rewrite Hs. destruct (lz4stream_DescriptorFlags_Size (fo_flags o)) eqn:E; [|reflexivity].
     rewrite (Hsize eq_refl), Z.eqb_refl. reflexivity. }
   rewrite Hsz. cbn [andb]. change (len (@nil Z)) with 0. rewrite Z.sub_0_r. reflexivity.
+Qed.
+
+(* C09, general form *)
+Theorem encode_spec_gen : forall o data, opts_ok o -> bytes data ->
+  (lz4stream_DescriptorFlags_Size (fo_flags o) = true -> fo_csize o = len data) ->
+  (fo_level o = lz4block_Fast \/ 0 < fo_level o <= 131072) -> len data < 2 ^ 64 ->
+  frame_spec Decoded true (frame_encode o data) = Some (data, len (frame_encode o data)).
+Proof.
+  intros o data Hok Hby Hsize Hlev Hlen.
+  pose proof (bsz_of_range o Hok) as Hbsz.
+  destruct (chunks_spec (bsz_of o) ltac:(lia) (S (length data)) data ltac:(lia) Hby) as [Hcat Hgood].
+  unfold frame_encode, frame_of_segments. cbn [flat_map concat]. rewrite !app_nil_r.
+  set (cs := chunks (S (length data)) (bsz_of o) data) in *.
+  pose proof (encode_spec_blocks o cs Hok Hgood) as H. cbv zeta in H. rewrite Hcat in H.
+  exact (H Hsize Hlev Hlen).
 Qed.
 
 (* C09 with the hypotheses of encode_spec_stmt plus the three it lacks (see the refutations below):
@@ -873,6 +895,7 @@ Qed.
 (* encode_spec_stmt itself (FrameTheoremsSpec.v) is FALSE: see encode_spec_stmt_false_reserved and
    encode_spec_stmt_false_size; encode_spec_fixed / encode_spec_gen / encode_spec_opts replace it. *)
 
+Print Assumptions encode_spec_blocks.
 Print Assumptions encode_spec_gen.
 Print Assumptions encode_spec_fixed.
 Print Assumptions encode_spec_opts.
